@@ -69,6 +69,18 @@ class C12(InvProp):
         c = inv(files)
         c["repeat"] = 1
         out.append(c)
+        # one layer overwrites several constants of one mapping (top level and nested): which key the error names is
+        # part of the observation and must not vary between renders, nodes, runs or thread counts
+        consts = {"=k%d" % i: i for i in range(8)}
+        files = {"classes/base.yml": cls("base", cfg=dict(consts), **consts),
+                 "classes/over.yml": cls("over", **{"k%d" % i: 100 + i for i in (4, 2, 7, 5, 1, 6)}),
+                 "classes/overn.yml": cls("overn", cfg={"k%d" % i: 100 + i for i in (3, 0, 5, 6, 1, 7)}),
+                 "classes/overr.yml": cls("overr", cfg="${alt}", alt={"k%d" % i: 100 + i for i in (6, 2, 0, 7, 3)})}
+        for i in range(12):
+            files["nodes/c%02d.yml" % i] = cls("c%02d" % i, ["base", ["over", "overn", "overr"][i % 3]])
+        c = inv(files)
+        c["repeat"] = 3
+        out.append(c)
         for c in C13_CLAUSES:
             c = dict(c)
             c["repeat"] = 2
